@@ -17,8 +17,9 @@ import (
 
 // memFS: synthetic in-memory fsutil.FS (a listing of stats in protocol order + contents).
 type memEntry struct {
-	st   *types.Stat
-	data []byte
+	st      *types.Stat
+	data    []byte
+	openErr bool
 }
 
 type memFS struct {
@@ -75,8 +76,14 @@ func newMemFS(ents []TreeEntry, log *evLog) *memFS {
 			st.Mode = goMode(unixTypeBits(e.Type) | e.Mode)
 			switch e.Type {
 			case "file":
-				st.Size = int64(len(e.Data))
 				data = e.Data
+				if e.Hole > 0 {
+					data = append(append([]byte{}, e.Data...), make([]byte, e.Hole)...)
+				}
+				st.Size = int64(len(data))
+				if e.OpenErr {
+					data, st.Size = nil, 0
+				}
 			case "symlink":
 				st.Mode = uint32(os.ModeSymlink) | 0777
 				st.Linkname = e.Link
@@ -92,7 +99,7 @@ func newMemFS(ents []TreeEntry, log *evLog) *memFS {
 				}
 			}
 		}
-		fs.ents = append(fs.ents, memEntry{st: st, data: data})
+		fs.ents = append(fs.ents, memEntry{st: st, data: data, openErr: e.OpenErr})
 		byPath[e.Path] = &fs.ents[len(fs.ents)-1]
 		fs.idx[e.Path] = len(fs.ents) - 1
 	}
@@ -218,6 +225,9 @@ func (fs *memFS) Open(p string) (io.ReadCloser, error) {
 		if j, ok := fs.idx[e.st.Linkname]; ok {
 			e = fs.ents[j]
 		}
+	}
+	if e.openErr {
+		return nil, &os.PathError{Op: "open", Path: p, Err: syscall.ENXIO}
 	}
 	return &memReader{fs: fs, path: p, data: e.data}, nil
 }
